@@ -1430,7 +1430,33 @@ machine_hash_slot (machine_t *m, int slot, uint64_t h)
 {
     mslot_t *s = &m->img[slot];
     if (!s->used || s->kind != MOP_BITS || !s->lowest || !s->img) return fnv_u64 (h, 0x5107);
+    if (s->tile)
+    {
+	/* only our own pixels: what lies between our rows belongs to the neighbours */
+	int y, used = (s->w * PIXMAN_FORMAT_BPP (s->fmt) + 7) / 8;
+	for (y = 0; y < s->h; y++)
+	    h = buf_hash_masked (h, s->lowest + (long)y * s->stride, s->fmt, s->w, 1, used, machine_pixmask (m, slot));
+	return h;
+    }
     return buf_hash_masked (h, s->lowest, s->fmt, s->w, s->h, s->stride, machine_pixmask (m, slot));
+}
+
+int
+machine_adopt_tile (machine_t *m, int slot, int fmt_idx, int w, int h, uint8_t *first_pixel, int stride_bytes)
+{
+    mslot_t *s = &m->img[slot];
+    pixman_image_t *img;
+    sim_op_t op;
+    if (s->used) return 0;
+    img = pixman_image_create_bits_no_clear (sim_formats[fmt_idx], w, h, (uint32_t *)first_pixel, stride_bytes);
+    if (!img) return 0;
+    memset (&op, 0, sizeof op);
+    op.kind = MOP_BITS;
+    install_new_image (m, slot, MOP_BITS, img, &op);
+    s->fmt = sim_formats[fmt_idx]; s->fmt_idx = fmt_idx; s->w = w; s->h = h;
+    s->stride = stride_bytes; s->lowest = first_pixel; s->storage = (size_t)stride_bytes * (h - 1) + (size_t)(w * PIXMAN_FORMAT_BPP (s->fmt) + 7) / 8;
+    s->tile = 1;
+    return 1;
 }
 
 long
